@@ -184,6 +184,7 @@ def run(sc, choices=None):
             raise InvalidScenario("masked / non-minimal server frames are not demanded either way")
     if sc.get("prior"):
         cfg["prior"] = dict(sc["prior"])  # the object was used before: an earlier connection was lost mid-frame / mid-message
+    cfg["no_multithread"] = bool(sc.get("no_multithread"))
     out = run_recv(int(sc.get("seed", 1)), stream, cfg, res)
     last = frames[-1]
     b0 = (last.fin << 7) | (last.rsv << 4) | last.opcode
@@ -253,6 +254,8 @@ def gen(rng):
     pr = _gen_prior(rng)
     if pr:
         sc["prior"] = pr
+    if rng.random() < 0.1:
+        sc["no_multithread"] = True  # WebSocket(enable_multithread=False): the no-op lock stand-in
     return sc
 
 
